@@ -5,7 +5,7 @@
 before building the returned future, and `is_ready_for_validation` sets the pending bit, increments `pending_count`, compares it
 with the batch's record count and pops / takes the batch — all on the same `&mut self`, i.e. under the caller's single guard.
 The batcher never locks anything itself. `Model/BatcherAtomic.lean` makes a `validate_record` call one atomic step exactly when
-this plugin finds that shape (theorems `at_most_one_validator`, `exactly_one_validator_partial`, `code_validate_is_atomic`; the
+this plugin finds that shape (theorems `at_most_one_validator`, `exactly_one_validator`, `code_validate_is_atomic`; the
 check-then-act split is the `decide`d `split_two_validators`; the concrete input comes from suite `c16_race`). Items `batcher.atomic.*`."""
 import re
 from extract import read, record, fail
